@@ -5,6 +5,7 @@ import importlib
 GEN = {
     'C01': [('Gen_C01', 'props.t_C01')],
     'C08': [('Gen_C08', 'props.t_C08')],
+    'C09': [('Gen_C09', 'props.t_C09')],
 }
 
 PROPS = sorted(GEN)
